@@ -67,6 +67,23 @@ CHECKS = {
          "trusted: the renderer's recorded offsets and the reference interpreter's executed-statement sequence; for a duplicate definition either line is acceptable (not checked); wording of messages is not compared", "3/C16"),
 }
 
+# additions of the second build round, appended to the technique / level text of the table above
+L3 = "; model-based whole programs through the real CLI (L3 family programs: blocks that establish a complete machine state with MOV/PUSH/POPF, execute one proptest-generated instruction of the family and print registers, flags and the memory the reference wrote; stdout tokenised and compared event by event with the reference machine)"
+FZ = "; thorough tier: coverage-guided libFuzzer campaign on the `exec` target (fuzzer bytes decoded into instruction shape, operands, machine state; same differential oracle, value-profile guided)"
+EXTRA_TECH = {
+ "C01": L3 + FZ, "C02": L3 + FZ, "C03": L3 + FZ, "C04": L3 + FZ, "C05": L3 + FZ, "C07": L3 + FZ,
+ "C06": "; the same jumps and loops inside whole programs through the real CLI (forward targets, self-targeting LOOPx, counted backward loops, flags set with PUSH/POPF) compared with the reference machine",
+ "C08": "; deep families through the CLI (recursion to depth n, chains of n procedures, n sequential calls returning or leaving by a jump, n up to 4000 quick / 65535 thorough)",
+ "C09": FZ + "; the console interrupt services pointed at the last bytes of the address space through the CLI (C18's reference as oracle)",
+ "C10": "; name probes (every identifier-like terminal that a downstream grammar of the working tree knows and the assembler does not, plausible program vocabulary, keywords with one character added -- used as code label, data label, procedure, macro name, macro parameter), boundary probes on both sides of every acceptance range and C14's near misses through the CLI; thorough tier: libFuzzer `compose` target",
+ "C17": "; deterministic family of print commands on both sides of every bound of the print reader typed at INT 3 and -i prompts with DS from 0 to FFFFh",
+ "C20": "; stepping while the program reads the keyboard (prompt answers and INT 21h input interleaved on one stdin in the order the reference consumes them); print commands on both sides of every bound of the print reader at the prompt",
+ "C19": "; Default-constructed machines; a Preprocessor context reused after clear(); histories with macro chains beyond the nesting limit; several undefined jumps out of one macro use",
+}
+for k, v in EXTRA_TECH.items():
+    t, a, b, c = CHECKS[k]
+    CHECKS[k] = (t + v, a, b, c)
+
 REASON_WIP = "check not built yet in this revision of /verif (work in progress; see DESIGN.md section 7 for the order of work)"
 ALL = ["C%02d" % i for i in range(1, 21)]
 
@@ -100,6 +117,8 @@ def main():
         "engines": [
             {"name": "vcheck", "path": "/verif/harness", "serves_properties": [c["property_id"] for c in checks],
              "kind_free_text": "Rust harness (proptest + exhaustive enumeration + reference model of the 8086 subset) linked against the library built from /repo's working tree; CLI-level checks drive the emulator_8086 binary built from the same tree in child processes"},
+            {"name": "vfuzz", "path": "/verif/fuzz", "serves_properties": ["C01", "C02", "C03", "C04", "C05", "C07", "C09", "C10", "C15"],
+             "kind_free_text": "cargo-fuzz / libFuzzer targets (pre, data, interp, print, compose, exec) linked against the same library and against the harness crate; run by the thorough tiers with fixed run counts, artifacts re-executed through the plain harness path before anything is reported"},
         ],
         "checks": checks,
         "not_applicable": [{"property_id": p, "reason": REASON_WIP} for p in ALL if p not in CHECKS],
